@@ -10,6 +10,13 @@ ASSUMPTIONS = ["renderings come from tools/orch/golayout.py: one token sequence 
 
 
 def run(chk):
+    progs_i, li = interaction_stream(chk)
+    for p_ in progs_i:
+        k0, v0 = outcome(li[p_['text']])
+        for w_ in p_['variants']:
+            k1, v1 = outcome(li[w_])
+            if k0 != k1 or (k0 == 'ok' and erase(v0) != erase(v1)):
+                chk.oracle_fail('interaction-variant:' + p_['family'], 'file', p_['text'], (k0, w_[:120]), k1, 'two renderings that differ only in layout / optional punctuation are read as different programs')
     rng = random.Random(chk.seed)
     n = 1000 if chk.tier == 'quick' else 15000
     k = 3 if chk.tier == 'quick' else 8
